@@ -269,7 +269,7 @@ fn decode_elem(t: &mut Tape, p: &BigUint, boundary: &[BigUint]) -> BigUint {
     }
 }
 
-fn real_prime_case(tape: &[u8], rec: &Rec) -> Verdict {
+pub fn real_prime_case(tape: &[u8], rec: &Rec) -> Verdict {
     let mut t = Tape::new(tape);
     let primes = field::curve_primes();
     let (pname, p) = &primes[t.below(3)];
